@@ -7,11 +7,16 @@ Exhaustive differential of the implementation against itself under a change of *
 import copy
 import datetime
 import itertools
+import json
 import math
+import os
+import pickle
 import re
+import struct
+import traceback
 
 from ..common import HarnessError, canon, load_impl, show
-from ..engine.shard import Acc, Family, split
+from ..engine.shard import Acc, Family, digest, split, MAX_SAMPLES_PER_SHARD, MAX_VIOLATIONS_PER_SHARD
 
 LEVEL = 'exploration'
 RULE = ('every function of SCRIPT_FUNCTIONS except clock/random/fetch is called through the real call wrapper '
@@ -27,7 +32,11 @@ RULE = ('every function of SCRIPT_FUNCTIONS except clock/random/fetch is called 
         'systemLog, systemLogDebug) and dataTop/dataAggregate grouping x six container shapes holding one integral number next '
         'to two strings x every pair of strings of length <= 2 over {backslash, double quote, . 0 , ] a} (13 characters in '
         'thorough) x {1, 3, -2, 999999999999999}, int vs float; (parse) jsonParse of the same shapes written as JSON text by '
-        'an independent writer with the number as n and as n.0, compact and spaced, against the denoted value. Compared: '
+        'an independent writer with the number as n and as n.0, compact and spaced, against the denoted value; (dtgrid) '
+        'datetimeNew over a grid of in-range / carrying / negative components x all 2^7 spellings. EVERY case of every family is '
+        'run in both orders of the spellings, each order in its own fresh process (int-first in the shard process, float-first '
+        'in a child forked before the first call of the implementation): within a process the spellings must agree, and between '
+        'the two processes the observations of each case must be equal (per-process memos in which 2 and 2.0 collide). Compared: '
         'canonical result (1 == 1.0), failed/succeeded + failure value, logFn lines of the log functions, canonical '
         'post-call state of every argument. A case is non-trivial when it contains at least one respellable integral '
         'number and the int-spelled call succeeded (passed validation, body ran).')
@@ -37,6 +46,8 @@ ASSUMPTIONS = [
     'operator results whose exact integer value exceeds 2^53 are UNSPECIFIED (host ints are exact, doubles are not)',
     'wording of failure log lines is not compared, only that the call failed and what it evaluated to',
     'clock, random and fetch functions are excluded (datetimeNow, datetimeToday, mathRandom, systemFetch)',
+    'run-order dependence is explored per shard (one function / one chunk of cases per process): state leaking from one library '
+    'function into another across shards is not explored',
 ]
 
 EXCLUDED = ('datetimeNow', 'datetimeToday', 'mathRandom', 'systemFetch')
@@ -128,12 +139,17 @@ def count_integrals(value, seen=None):
     return 0
 
 
-def zero_norm(c):
+NEG_ZERO_REPR = repr(('n', 0, -1))
+
+
+def zero_norm(c, top=True):
     """Canonical form with the sign of zero dropped."""
+    if top and NEG_ZERO_REPR not in repr(c):
+        return c        # fast path: no negative zero anywhere
     if isinstance(c, tuple):
         if len(c) == 3 and c[0] == 'n' and c[1] == 0:
             return ('n', 0, 1)
-        return tuple(zero_norm(x) for x in c)
+        return tuple(zero_norm(x, False) for x in c)
     return c
 
 
@@ -182,6 +198,7 @@ def callbacks():
     if 'cb' not in _CACHE:
         bs = impl()[0]
         g = {}
+        _CACHE['impl_called'] = True
         bs.execute_script(bs.parse_script(CALLBACK_SOURCE), {'globals': g})
         _CACHE['cb'] = {n: g[n] for n in CALLBACK_NAMES}
     return _CACHE['cb']
@@ -206,6 +223,7 @@ def split_logs(logs):
 def call_direct(name, args, watch_all=False):
     """Call a library function through the runtime's call wrapper with private, already spelled arguments."""
     bs, SCRIPT_FUNCTIONS = impl()  # pylint: disable=invalid-name
+    _CACHE['impl_called'] = True
     logs = []
     names = [f'v{i}' for i in range(len(args))]
     g = dict(zip(names, args))
@@ -259,6 +277,177 @@ def brief(obs):
 
 
 # ----------------------------------------------------------------------------------------------------------------
+# Run order of the spellings.  Every shard runs its cases twice, in two FRESH processes: the shard process itself
+# (spellings in the order int-first) and a child forked before the first call of the implementation (float-first).
+# Within a process the two spellings of a case must agree (check_*); between the processes the observations of every
+# case must be equal (two_orders) - a per-process memo in which 2 and 2.0 collide makes the result depend on which
+# spelling came first, which neither order shows on its own when the poisoned entry serves both spellings.
+# ----------------------------------------------------------------------------------------------------------------
+
+ORDERS = ('int-first', 'float-first')
+_STATE = {'order': 'int-first', 'rec': None}
+
+
+def order_of(case):
+    return case.get('order') if case.get('order') in ORDERS else _STATE['order']
+
+
+def in_order(order, first, second):
+    """Call the two thunks in the run order; return (result of first, result of second) in canonical order."""
+    if order == 'float-first':
+        b = second()
+        a = first()
+        return a, b
+    a = first()
+    return a, second()
+
+
+def obs_key(o):
+    return None if o is None else (o['how'], o['fails'], tuple(o['logs']), o['state'])
+
+
+def case_key(case):
+    return json.dumps({k: v for k, v in case.items() if k not in ('order', 'labels', 'args', 'value', 'source')}, sort_keys=True)
+
+
+def record(case, summary):
+    """Remember the observations of a case for the comparison between the two run orders."""
+    if _STATE['rec'] is not None:
+        _STATE['rec'][case_key(case)] = summary
+
+
+def _send(fd, obj):
+    data = pickle.dumps(obj)
+    os.write(fd, struct.pack('>Q', len(data)))
+    view = memoryview(data)
+    while view:
+        n = os.write(fd, view[:1 << 16])
+        view = view[n:]
+
+
+def _recv(fd):
+    def read_exact(n):
+        buf = b''
+        while len(buf) < n:
+            chunk = os.read(fd, n - len(buf))
+            if not chunk:
+                raise HarnessError('C12: the float-first child process ended without a result')
+            buf += chunk
+        return buf
+    size = struct.unpack('>Q', read_exact(8))[0]
+    return pickle.loads(read_exact(size))
+
+
+def _child(order, thunk, up, down):
+    """Body of the forked child: run thunk under the given order, send (result, digests), then serve summary requests."""
+    code = 0
+    try:
+        _STATE['order'] = order
+        _STATE['rec'] = {}
+        try:
+            res = thunk()
+            _send(up, ('ok', res, {k: digest(v) for k, v in _STATE['rec'].items()}))
+            wanted = _recv(down)
+            _send(up, {k: _STATE['rec'].get(k) for k in wanted})
+        except BaseException:  # pylint: disable=broad-exception-caught
+            _send(up, ('exc', traceback.format_exc(), None))
+    except BaseException:  # pylint: disable=broad-exception-caught
+        code = 1
+    finally:
+        os._exit(code)
+
+
+def spawn(order, thunk):
+    up_r, up_w = os.pipe()
+    down_r, down_w = os.pipe()
+    pid = os.fork()
+    if pid == 0:
+        os.close(up_r)
+        os.close(down_w)
+        _child(order, thunk, up_w, down_r)
+    os.close(up_w)
+    os.close(down_r)
+    return pid, up_r, down_w
+
+
+def two_orders(family, body, arg):
+    """Run body(arg) -> Acc.result() in this fresh process with the spellings int-first and in a forked fresh child
+    float-first; merge the two results; compare the recorded observations case by case."""
+    if _CACHE.get('impl_called'):
+        raise HarnessError('C12: the shard process already called the implementation before forking')
+    pid, up, down = spawn('float-first', lambda: body(arg))
+    _STATE['order'] = 'int-first'
+    _STATE['rec'] = {}
+    mine = body(arg)
+    rec = _STATE['rec']
+    _STATE['rec'] = None
+    status, theirs, their_digests = _recv(up)
+    if status != 'ok':
+        os.waitpid(pid, 0)
+        raise HarnessError('C12: exception in the float-first child process:\n' + theirs)
+    if set(their_digests) != set(rec):
+        raise HarnessError(f'C12 {family}: the two run orders enumerated different cases')
+    differing = [k for k, v in rec.items() if digest(v) != their_digests[k]]
+    _send(down, differing[:MAX_VIOLATIONS_PER_SHARD])
+    their_obs = _recv(up)
+    os.waitpid(pid, 0)
+    os.close(up)
+    os.close(down)
+    out = merge_results(mine, theirs)
+    acc = Acc(family)
+    for k in differing:
+        acc.violation(dict(json.loads(k), order='cross'), {'run order': 'int-first', 'observations': show(rec[k])},
+                      {'run order': 'float-first', 'observations': show(their_obs.get(k, 'see replay'))},
+                      'the observations of this case depend on which spelling the process saw first (int-first process vs float-first process)')
+    extra = acc.result()
+    out['nviol'] += extra['nviol']
+    out['violations'] = (extra['violations'] + out['violations'])[:2 * MAX_VIOLATIONS_PER_SHARD]
+    return out
+
+
+def merge_results(a, b):
+    out = dict(a)
+    for k in ('cases', 'evals', 'states', 'transitions', 'traces', 'nontrivial', 'unspecified', 'pruned', 'nviol', 'nknown'):
+        out[k] = a[k] + b[k]
+    out['outcomes'] = sorted(set(a['outcomes']) | set(b['outcomes']))
+    out['violations'] = a['violations'] + b['violations']
+    out['known_violations'] = a['known_violations'] + b['known_violations']
+    out['samples'] = (a['samples'] + b['samples'])[:MAX_SAMPLES_PER_SHARD]
+    out['capped'] = a['capped'] or b['capped']
+    out['extra'] = dict(a['extra'])
+    for k, v in b['extra'].items():
+        out['extra'][k] = out['extra'].get(k, 0) + v
+    return out
+
+
+def cross_replay(check, case):
+    """Replay of a cross-order violation: the single case float-first in a fresh child, int-first here."""
+    one = {k: v for k, v in case.items() if k != 'order'}
+
+    def run():
+        acc = Acc('replay')
+        check(dict(one), acc)
+        return acc.result()
+    pid, up, down = spawn('float-first', run)
+    _STATE['order'] = 'int-first'
+    _STATE['rec'] = {}
+    mine = run()
+    rec = _STATE['rec']
+    _STATE['rec'] = None
+    status, theirs, their_digests = _recv(up)
+    if status != 'ok':
+        os.waitpid(pid, 0)
+        raise HarnessError('C12: exception in the float-first child process:\n' + theirs)
+    differing = [k for k, v in rec.items() if digest(v) != their_digests.get(k)]
+    _send(down, differing)
+    their_obs = _recv(up)
+    os.waitpid(pid, 0)
+    viol = mine['violations'] + theirs['violations']
+    return {'differs': bool(differing or viol), 'cross_order_difference': [{'int-first': show(rec[k]), 'float-first': show(their_obs.get(k))} for k in differing],
+            'violations': viol}
+
+
+# ----------------------------------------------------------------------------------------------------------------
 # Family shallow
 # ----------------------------------------------------------------------------------------------------------------
 
@@ -266,23 +455,31 @@ def check_shallow(case, acc):
     pool = pool16() if case['pool'] == 'P16' else pool8()
     name = case['fn']
     base = tuple(pool[i][1] for i in case['idx'])
-    a_int = list(copy.deepcopy(base))
-    k = respell(a_int, 0)
-    o_int = call_direct(name, a_int, watch_all=True)
-    acc.evals += 1
-    if k:
-        a_flt = list(copy.deepcopy(base))
-        respell(a_flt, -1)
-        o_flt = call_direct(name, a_flt, watch_all=True)
+    order = order_of(case)
+    k = len(slots_of(list(base)))
+
+    def run(mask):
+        args = list(copy.deepcopy(base))
+        respell(args, mask)
         acc.evals += 1
+        return call_direct(name, args, watch_all=True)
+    if k:
+        o_int, o_flt = in_order(order, lambda: run(0), lambda: run(-1))
         diff = compare(acc, o_int, o_flt)
         if diff is not None:
-            acc.violation(dict(case, labels=[pool[i][0] for i in case['idx']]), brief(o_int), brief(o_flt),
-                          f'{name}: {diff} (all integral numbers as int vs as float)')
+            acc.violation(dict(case, order=order, labels=[pool[i][0] for i in case['idx']]), brief(o_int), brief(o_flt),
+                          f'{name}: {diff} (all integral numbers as int vs as float; run order {order})')
+    else:
+        o_int, o_flt = run(0), None
+    record(case, (obs_key(o_int), obs_key(o_flt)))
     return k, o_int
 
 
 def fam_shallow(arg):
+    return two_orders('shallow', body_shallow, arg)
+
+
+def body_shallow(arg):
     tier, names = arg
     acc = Acc('shallow')
     n16 = len(pool16())
@@ -361,7 +558,10 @@ def base_table():
         'datetimeMonth': [(DT,)], 'datetimeSecond': [(DT,)], 'datetimeYear': [(DT,)],
         'datetimeISOFormat': [(DT,), (DT, True)],
         'datetimeISOParse': [('2024-03-10T01:02:03.004Z',), ('2024-03-10',)],
-        'datetimeNew': [(2024, 3, 10), (2024, 3, 10, 1, 2, 3, 4), (2024, 14, 35), (2023, -1, -40, 25, 61, 61, 1001)],
+        'datetimeNew': [(2024, 3, 10), (2024, 3, 10, 1, 2, 3, 4), (2024, 14, 35), (2023, -1, -40, 25, 61, 61, 1001),
+                        (2024, 1, 31, 36), (2024, 1, 31, 0, 0, 0, 86400000), (2024, 1, 5, -1, -1, -1, -1), (2024, 0, 1), (2024, 14, 31),
+                        (2024, 12, 31, 23, 59, 59, 1000), (2024, 3, 0, 24, 60, 60, 1000), (2024, -11, -30), (2024, 2, 29, 0, 1440),
+                        (2024, 1, 1, 0, 0, 86400), (2024, 2, 10000), (2024, 2, -10000)],
         'jsonParse': [('{"a": [1, 2.5, "x"]}',)],
         'jsonStringify': [({'a': [1, 2, {'b': 3}]},), ({'a': [1, 2]}, 2), (1,), (100000000000000,)],
         'mathAbs': [(-3,), (2.5,)], 'mathAcos': [(1,), (0,), (0.5,)], 'mathAsin': [(1,), (0,)], 'mathAtan': [(1,)],
@@ -440,24 +640,33 @@ def resolve_callbacks(args):
             args[i] = cbs[a.name]
 
 
+def base_tuple(case):
+    """The base tuple a deep/script/grid case refers to."""
+    if case['fn'] == 'datetimeNew' and isinstance(case['base'], list):
+        return (2024,) + tuple(case['base'])
+    return base_table()[case['fn']][case['base']]
+
+
 def check_deep(case, acc):
-    name, b, mask = case['fn'], case['base'], case['mask']
-    base = base_table()[name][b]
-    ref = list(copy.deepcopy(base))
-    respell(ref, 0)
-    resolve_callbacks(ref)
-    o_ref = call_direct(name, ref)
-    acc.evals += 1
-    if mask:
-        alt = list(copy.deepcopy(base))
-        respell(alt, mask)
-        resolve_callbacks(alt)
-        o_alt = call_direct(name, alt)
+    name, mask = case['fn'], case['mask']
+    base = base_tuple(case)
+    order = order_of(case)
+
+    def run(m):
+        args = list(copy.deepcopy(base))
+        respell(args, m)
+        resolve_callbacks(args)
         acc.evals += 1
+        return call_direct(name, args)
+    if mask:
+        o_ref, o_alt = in_order(order, lambda: run(0), lambda: run(mask))
         diff = compare(acc, o_ref, o_alt)
         if diff is not None:
-            acc.violation(dict(case, args=show(_plain(base))), brief(o_ref), brief(o_alt),
-                          f'{name}: {diff} (all ints vs the spelling with float at slots {[i for i in range(64) if (mask >> i) & 1]})')
+            acc.violation(dict(case, order=order, args=show(_plain(base))), brief(o_ref), brief(o_alt),
+                          f'{name}: {diff} (all ints vs the spelling with float at slots {[i for i in range(64) if (mask >> i) & 1]}; run order {order})')
+    else:
+        o_ref, o_alt = run(0), None
+    record(case, (obs_key(o_ref), obs_key(o_alt)))
     return o_ref
 
 
@@ -472,9 +681,14 @@ def _plain(v):
 
 
 def fam_deep(arg):
+    return two_orders('deep', body_deep, arg)
+
+
+def body_deep(arg):
     acc = Acc('deep')
     for name, b, k in arg:
-        for mask in range(2 ** k):
+        masks = range(2 ** k) if _STATE['order'] == 'int-first' else range(2 ** k - 1, -1, -1)
+        for mask in masks:
             acc.cases += 1
             obs = check_deep({'fn': name, 'base': b, 'mask': mask}, acc)
             ok = obs['how'] == 'value' and obs['fails'] == 0
@@ -486,6 +700,39 @@ def fam_deep(arg):
                 acc.outcome((name, b, obs['how'], obs['fails'], repr(obs['state'])[:200]))
             if mask == 2 ** k - 1 and k >= 2:
                 acc.sample({'call': name, 'args': show(_plain(base_table()[name][b])), 'spellings': 2 ** k, 'int_spelling': brief(obs)})
+    return acc.result()
+
+
+# ----------------------------------------------------------------------------------------------------------------
+# datetimeNew component grid: every combination of in-range / carrying / negative components, all 2^7 spellings
+# ----------------------------------------------------------------------------------------------------------------
+
+DT_GRID = [[0, 1, 14], [-1, 1, 31], [-1, 0, 36], [0, 61], [0, -61], [0, 86400000]]   # month, day, hour, minute, second, millisecond
+DT_GRID_THOROUGH = [[0, 1, 12, 14, -11], [-1, 0, 1, 28, 31], [-1, 0, 23, 36], [0, 59, 61, -1], [0, 59, -61], [0, 999, 1000, -1, 86400000]]
+
+
+def dt_grid(tier):
+    return [list(t) for t in itertools.product(*(DT_GRID_THOROUGH if tier == 'thorough' else DT_GRID))]
+
+
+def fam_dtgrid(arg):
+    return two_orders('dtgrid', body_dtgrid, arg)
+
+
+def body_dtgrid(arg):
+    acc = Acc('dtgrid')
+    for comps in arg:
+        masks = range(128) if _STATE['order'] == 'int-first' else range(127, -1, -1)
+        for mask in masks:
+            acc.cases += 1
+            obs = check_deep({'fn': 'datetimeNew', 'base': comps, 'mask': mask}, acc)
+            ok = obs['how'] == 'value' and obs['fails'] == 0
+            if mask and ok:
+                acc.nontrivial += 1
+            if mask == 0:
+                acc.outcome((tuple(comps), obs['fails'], repr(obs['state'][2][0])))
+        if comps[2] == 36 and comps[5]:
+            acc.sample({'call': 'datetimeNew', 'args': [2024] + comps, 'spellings': 128, 'int_spelling': brief(obs)})
     return acc.result()
 
 
@@ -553,6 +800,7 @@ def print_script(name, base):
 
 def run_script(source, nargs):
     bs = impl()[0]
+    _CACHE['impl_called'] = True
     logs = []
     g = {}
     options = {'globals': g, 'logFn': logs.append, 'debug': True}
@@ -570,21 +818,29 @@ def run_script(source, nargs):
 def check_script(case, acc):
     name, b = case['fn'], case['base']
     base = base_table()[name][b]
-    ref = list(copy.deepcopy(base))
-    respell(ref, 0)
-    resolve_callbacks(ref)
-    o_ref = call_direct(name, ref)
+    order = order_of(case)
     source = print_script(name, base)
-    o_scr = run_script(source, len(base))
+
+    def direct():
+        ref = list(copy.deepcopy(base))
+        respell(ref, 0)
+        resolve_callbacks(ref)
+        return call_direct(name, ref)
+    o_ref, o_scr = in_order(order, direct, lambda: run_script(source, len(base)))
     acc.evals += 2
     diff = compare(acc, o_ref, o_scr)
     if diff is not None:
-        acc.violation(dict(case, source=source), brief(o_ref), brief(o_scr),
-                      f'{name}: {diff} (direct call with ints vs the same call written as a script, whose literals are floats)')
+        acc.violation(dict(case, order=order, source=source), brief(o_ref), brief(o_scr),
+                      f'{name}: {diff} (direct call with ints vs the same call written as a script, whose literals are floats; run order {order})')
+    record(case, (obs_key(o_ref), obs_key(o_scr)))
     return o_ref, o_scr, source
 
 
 def fam_script(arg):
+    return two_orders('script', body_script, arg)
+
+
+def body_script(arg):
     acc = Acc('script')
     for name, b, k in arg:
         acc.cases += 1
@@ -608,6 +864,7 @@ POW_EXP_BOUND = 10000   # int ** int with a larger exponent is not evaluated (re
 
 def eval_op(op, vals):
     bs = impl()[0]
+    _CACHE['impl_called'] = True
     g = {f'v{i}': v for i, v in enumerate(vals)}
     if len(vals) == 2:
         expr = {'binary': {'op': op, 'left': {'variable': 'v0'}, 'right': {'variable': 'v1'}}}
@@ -640,32 +897,38 @@ def check_ops(case, acc):
         acc.pruned += 1
         return 0, 'pruned'
     combos = list(itertools.product((0, 1), repeat=len(spell_ops)))
-    ref = None
-    verdict = 'same'
-    for combo in combos:
+    order = order_of(case)
+    got = {}
+    for combo in (combos if order == 'int-first' else combos[::-1]):
         vals = list(copy.deepcopy(base))
         for which, bit in zip(spell_ops, combo):
             one = [vals[which]]
             respell(one, -1 if bit else 0)
             vals[which] = one[0]
-        obs = eval_op(op, vals)
+        got[combo] = eval_op(op, vals)
         acc.evals += 1
-        if ref is None:
-            ref = obs
-            raw = obs['res']
-            if isinstance(raw, int) and not isinstance(raw, bool) and abs(raw) > 2 ** 53:
-                acc.unspecified += 1
-                return 1, 'unspecified'
-            continue
+    record(case, tuple(obs_key(got[c]) for c in combos))
+    ref = got[combos[0]]
+    raw = ref['res']
+    if isinstance(raw, int) and not isinstance(raw, bool) and abs(raw) > 2 ** 53:
+        acc.unspecified += 1
+        return 1, 'unspecified'
+    verdict = 'same'
+    for combo in combos[1:]:
+        obs = got[combo]
         diff = compare(acc, ref, obs)
         if diff is not None:
             verdict = 'differs'
-            acc.violation(dict(case, labels=[pool[i][0] for i in idx], float_operands=[w for w, bit in zip(spell_ops, combo) if bit]),
-                          brief(ref), brief(obs), f'operator {op}: {diff} (int operands vs float at operand(s) {[w for w, bit in zip(spell_ops, combo) if bit]})')
+            acc.violation(dict(case, order=order, labels=[pool[i][0] for i in idx], float_operands=[w for w, bit in zip(spell_ops, combo) if bit]),
+                          brief(ref), brief(obs), f'operator {op}: {diff} (int operands vs float at operand(s) {[w for w, bit in zip(spell_ops, combo) if bit]}; run order {order})')
     return len(combos), verdict if len(combos) > 1 else 'no-number'
 
 
 def fam_ops(arg):
+    return two_orders('ops', body_ops, arg)
+
+
+def body_ops(arg):
     acc = Acc('ops')
     n = len(op_pool())
     for op, i in arg:
@@ -735,6 +998,7 @@ def for_scripts(use, arr):
 
 def run_for(source):
     bs = impl()[0]
+    _CACHE['impl_called'] = True
     logs = []
     g = {}
     try:
@@ -751,17 +1015,22 @@ def check_forindex(case, acc):
     use = USES[case['use']]
     arr = for_arrays(case['tier'])[case['arr']]
     loop, ref = for_scripts(use, arr)
-    o_loop = run_for(loop)
-    o_ref = run_for(ref)
+    order = order_of(case)
+    o_loop, o_ref = in_order(order, lambda: run_for(loop), lambda: run_for(ref))
     acc.evals += 2
     diff = compare(acc, o_ref, o_loop)
     if diff is not None:
-        acc.violation(dict(case, source=loop, reference_source=ref), brief(o_ref), brief(o_loop),
-                      f'for-loop index used in {use}: {diff} (loop with an explicit float index vs the for statement\'s int-seeded index)')
+        acc.violation(dict(case, order=order, source=loop, reference_source=ref), brief(o_ref), brief(o_loop),
+                      f'for-loop index used in {use}: {diff} (loop with an explicit float index vs the for statement\'s int-seeded index; run order {order})')
+    record(case, (obs_key(o_loop), obs_key(o_ref)))
     return o_loop, loop
 
 
 def fam_forindex(arg):
+    return two_orders('forindex', body_forindex, arg)
+
+
+def body_forindex(arg):
     tier, uses = arg
     acc = Acc('forindex')
     arrs = for_arrays(tier)
@@ -783,7 +1052,7 @@ def fam_forindex(arg):
 
 PRINT_ALPHABET = ['\\', '"', '.', '0', ',', ']', 'a']
 PRINT_ALPHABET_THOROUGH = PRINT_ALPHABET + ['e', '-', '}', ':', '5', ' ']
-PRINT_NUMBERS = [1, 3, -2, 999999999999999]
+PRINT_NUMBERS = [3, -2, 999999999999999, 1]     # quick uses the first three, thorough all four
 PRINT_SHAPES = ['[s1,n,s2]', '{s1:n,zz:s2}', '{a:s1,b:n,c:s2}', '[[s1,n],s2]', '[n,s1,s2]', '[s1,s2,n]']
 
 
@@ -794,6 +1063,10 @@ def print_strings(tier):
         al = PRINT_ALPHABET_THOROUGH if tier == 'thorough' else PRINT_ALPHABET
         _CACHE[key] = [''] + list(al) + [a + b for a in al for b in al]
     return _CACHE[key]
+
+
+def print_numbers(tier):
+    return PRINT_NUMBERS if tier == 'thorough' else PRINT_NUMBERS[:3]
 
 
 def print_value(shape, s1, num, s2):
@@ -833,6 +1106,7 @@ PRINT_LIB = ('jsonStringify', 'stringNew', 'arrayJoin', 'arrayNew', 'systemLog',
 def print_eval(expr, glob):
     """-> (how, result (must be a string/null to be compared exactly), failure lines, other log lines)"""
     bs, funcs = impl()
+    _CACHE['impl_called'] = True
     logs = []
     g = dict(glob)
     for n in PRINT_LIB:
@@ -851,15 +1125,26 @@ GROUP_TOP = {'function': {'name': 'dataTop', 'args': [{'variable': 'v0'}, {'numb
 GROUP_AGG = _fn_expr('dataAggregate', 2)
 
 
+QUICK_SKIP = ("v + ''", 'systemLogDebug(v)')
+
+
+def printers(tier):
+    return PRINTERS if tier == 'thorough' else [p for p in PRINTERS if p[0] not in QUICK_SKIP]
+
+
 def check_print(case, acc):
     """All printers and the two grouping functions for ONE value in its int and its float spelling."""
     strings = print_strings(case['tier'])
     shape, s1, s2, num = case['shape'], strings[case['s1']], strings[case['s2']], PRINT_NUMBERS[case['n']]
-    case = dict(case, value=show(print_value(shape, s1, num, s2)))
+    order = order_of(case)
+    case0 = case
+    case = dict(case, order=order, value=show(print_value(shape, s1, num, s2)))
     bad = 0
-    for pid, expr, extra in PRINTERS:
-        o_int = print_eval(expr, dict(extra, v0=print_value(shape, s1, int(num), s2)))
-        o_flt = print_eval(expr, dict(extra, v0=print_value(shape, s1, float(num), s2)))
+    summary = []
+    for pid, expr, extra in printers(case['tier']):
+        o_int, o_flt = in_order(order, lambda: print_eval(expr, dict(extra, v0=print_value(shape, s1, int(num), s2))),  # pylint: disable=cell-var-from-loop
+                                lambda: print_eval(expr, dict(extra, v0=print_value(shape, s1, float(num), s2))))  # pylint: disable=cell-var-from-loop
+        summary.append((o_int, o_flt))
         acc.evals += 2
         if o_int != o_flt:
             bad += 1
@@ -872,17 +1157,21 @@ def check_print(case, acc):
     if shape == 2:
         cats = ['a', 'b', 'c']
         ref = None
-        for m in range(4):
+        grouped = {}
+        for m in (range(4) if order == 'int-first' else range(3, -1, -1)):
             rows = [{'a': s1, 'b': float(num) if m & 1 else int(num), 'c': s2, 'w': 1}, {'a': s1, 'b': float(num) if m & 2 else int(num), 'c': s2, 'w': 1}]
             o_top = print_eval(GROUP_TOP, {'v0': rows, 'v1': list(cats)})
             o_agg = print_eval(GROUP_AGG, {'v0': rows, 'v1': {'categories': list(cats), 'measures': [{'field': 'w', 'function': 'count'}]}})
             acc.evals += 2
-            if ref is None:
-                ref = (o_top, o_agg)
-            elif (o_top, o_agg) != ref:
+            grouped[m] = (o_top, o_agg)
+        ref = grouped[0]
+        for m in (1, 2, 3):
+            if grouped[m] != ref:
                 bad += 1
-                acc.violation(dict(case, printer='dataTop/dataAggregate grouping', row_spellings=m), show(ref), show((o_top, o_agg)),
+                acc.violation(dict(case, printer='dataTop/dataAggregate grouping', row_spellings=m), show(ref), show(grouped[m]),
                               'rows that differ only in the int/float spelling of a category value are grouped differently')
+        summary.append(tuple(grouped[m] for m in range(4)))
+    record(case0, tuple(summary))
     return bad
 
 
@@ -891,12 +1180,16 @@ def print_nontrivial(s1, s2):
 
 
 def fam_print(arg):
+    return two_orders('print', body_print, arg)
+
+
+def body_print(arg):
     tier, firsts = arg
     acc = Acc('print')
     strings = print_strings(tier)
     for shape, i in firsts:
         for j in range(len(strings)):
-            for k in range(len(PRINT_NUMBERS)):
+            for k in range(len(print_numbers(tier))):
                 acc.cases += 1
                 bad = check_print({'tier': tier, 'shape': shape, 's1': i, 's2': j, 'n': k}, acc)
                 if print_nontrivial(strings[i], strings[j]):
@@ -947,25 +1240,34 @@ def check_parse(case, acc):
     shape, s1, s2, num = case['shape'], strings[case['s1']], strings[case['s2']], PRINT_NUMBERS[case['n']]
     want = ('value', zero_norm(canon(print_value(shape, s1, num, s2))), 0, ())
     bad = 0
+    order = order_of(case)
+    summary = {}
     for spaced in (False, True):
-        for numtext in (str(num), str(num) + '.0'):
+        texts = (str(num), str(num) + '.0')
+        for numtext in (texts if order == 'int-first' else texts[::-1]):
             text = parse_text(shape, s1, numtext, s2, spaced)
             got = print_eval(PARSE_EXPR, {'v0': text})
+            summary[(spaced, numtext)] = got
             acc.evals += 1
             if got != want:
                 bad += 1
-                acc.violation(dict(case, text=text), {'how': want[0], 'value': show(want[1])}, {'how': got[0], 'value': show(got[1]), 'failed': got[2]},
+                acc.violation(dict(case, order=order, text=text), {'how': want[0], 'value': show(want[1])}, {'how': got[0], 'value': show(got[1]), 'failed': got[2]},
                               f'jsonParse({text!r}) is not the value the text denotes (number written as {numtext})')
+    record(case, tuple(sorted(summary.items())))
     return bad
 
 
 def fam_parse(arg):
+    return two_orders('parse', body_parse, arg)
+
+
+def body_parse(arg):
     tier, firsts = arg
     acc = Acc('parse')
     strings = print_strings(tier)
     for shape, i in firsts:
         for j in range(len(strings)):
-            for k in range(len(PRINT_NUMBERS)):
+            for k in range(len(print_numbers(tier))):
                 acc.cases += 1
                 bad = check_parse({'tier': tier, 'shape': shape, 's1': i, 's2': j, 'n': k}, acc)
                 if print_nontrivial(strings[i], strings[j]):
@@ -988,8 +1290,10 @@ def families(tier):
     arrs = for_arrays(tier)
     nstr = len(print_strings(tier))
     pfirsts = [(sh, i) for sh in range(len(PRINT_SHAPES)) for i in range(nstr)]
-    nprint = len(PRINT_SHAPES) * nstr * nstr * len(PRINT_NUMBERS)
-    return [
+    nprint = len(PRINT_SHAPES) * nstr * nstr * len(print_numbers(tier))
+    grid = dt_grid(tier)
+    both = ' - every case in both run orders of the spellings (int-first in the shard process, float-first in a fresh child)'
+    fams = [
         Family('shallow', fam_shallow, [(tier, [n]) for n in names],
                f'{len(names)} functions x every argument tuple of arity 0..3 over a {n16}-value all-types pool'
                + (' + arity 4 over 8 values' if tier == 'thorough' else '') + ', int spelling vs float spelling',
@@ -1003,18 +1307,26 @@ def families(tier):
         Family('forindex', fam_forindex, [(tier, u) for u in split(list(range(len(USES))), 16)],
                f'{len(USES)} uses of the for-loop index x {len(arrs)} iterated arrays', expected=len(USES) * len(arrs)),
         Family('print', fam_print, [(tier, f) for f in split(pfirsts, 64)],
-               f'{len(PRINTERS)} printers (+ dataTop/dataAggregate grouping) x {len(PRINT_SHAPES)} container shapes x {nstr}^2 strings (length <= 2 over '
-               f'{len(PRINT_ALPHABET_THOROUGH if tier == "thorough" else PRINT_ALPHABET)} characters) x {len(PRINT_NUMBERS)} numbers, int vs float', expected=nprint),
+               f'{len(printers(tier))} printers (+ dataTop/dataAggregate grouping) x {len(PRINT_SHAPES)} container shapes x {nstr}^2 strings (length <= 2 over '
+               f'{len(PRINT_ALPHABET_THOROUGH if tier == "thorough" else PRINT_ALPHABET)} characters) x {len(print_numbers(tier))} numbers, int vs float', expected=nprint),
         Family('parse', fam_parse, [(tier, f) for f in split(pfirsts, 32)],
-               f'jsonParse of {len(PRINT_SHAPES)} shapes x {nstr}^2 strings x {len(PRINT_NUMBERS)} numbers, number written n and n.0, compact and spaced', expected=nprint),
+               f'jsonParse of {len(PRINT_SHAPES)} shapes x {nstr}^2 strings x {len(print_numbers(tier))} numbers, number written n and n.0, compact and spaced', expected=nprint),
+        Family('dtgrid', fam_dtgrid, split(grid, 32), f'datetimeNew(2024, m, d, h, mi, s, ms) over the component grid {DT_GRID_THOROUGH if tier == "thorough" else DT_GRID} '
+               f'({len(grid)} tuples) x all 2^7 spellings', expected=len(grid) * 128),
     ]
+    for fam in fams:
+        fam.bound += both
+        fam.expected *= 2
+    return fams
 
 
 _CHECKS = {'shallow': check_shallow, 'deep': check_deep, 'script': check_script, 'ops': check_ops, 'forindex': check_forindex,
-           'print': check_print, 'parse': check_parse}
+           'print': check_print, 'parse': check_parse, 'dtgrid': check_deep}
 
 
 def replay(family, case):
+    if case.get('order') == 'cross':
+        return cross_replay(_CHECKS[family], case)
     acc = Acc(family)
     _CHECKS[family](case, acc)
     res = acc.result()
